@@ -128,9 +128,11 @@ Bad ==
             \E t \in ArgMin(QFun(qi)) : SeqSet(Tr.q[qi].fa) = SeqSet(Tr.q[qi].fb) \cup Chain(t, N),
        <<"C17", "relevance_flags_are_not_previous_flags_plus_the_ancestor_chain_of_a_conqueror">>)
   \cup b(\A i \in Nodes : cost[i] < INF, <<"C15", "sample_not_conquered">>)
-  \cup b("tw" \in DOMAIN Tr => /\ cost = [i \in Nodes |-> Tr.tw.cost[i]] /\ pred = [i \in Nodes |-> Tr.tw.pred[i]]
-                                /\ lab = [i \in Nodes |-> Tr.tw.lab[i]] /\ proto = SeqSet(Tr.tw.proto)
-                                /\ order = Tr.tw.order,
+  \* what training determines must coincide: the prototype set (same routine, same input), every cost (the optimum is unique),
+  \* and with tie-free weights every label.  Predecessors, the conquest order and - under ties - labels depend on how equally
+  \* good offers are ordered, which the two models need not do alike (differences there are reported as drift by the driver).
+  \cup b("tw" \in DOMAIN Tr => /\ cost = [i \in Nodes |-> Tr.tw.cost[i]] /\ proto = SeqSet(Tr.tw.proto)
+                                /\ (TieFree => lab = [i \in Nodes |-> Tr.tw.lab[i]]),
        <<"C15", "empty_unlabeled_set_differs_from_supervised_training">>)
 
 ASSUME /\ TLCSet(1, {}) /\ TLCSet(2, {}) /\ TLCSet(3, {}) /\ TLCSet(4, {}) /\ TLCSet(5, {}) /\ TLCSet(6, {})
